@@ -74,6 +74,9 @@ class SeqCache(evx.System):
     self.mod = carbon.cache
     self.pick = 0
     carbon.cache.choice = lambda seq: seq[self.pick % len(seq)]
+    if 'c10' in self.oracles:
+      env.private_conf()
+      env.wire_writer_processor(settings)      # the daemon's wiring decides which handlers the cache's events have
     self.proc = carbon.cache.CacheFeedingProcessor()
     self.cache = self.proc.cache
     self.overflow = 0
@@ -123,6 +126,8 @@ class SeqCache(evx.System):
       _, m, ts = ev
       v = float(self.n)
       before = self.overflow
+      from carbon import instrumentation as _instr
+      counted0 = _instr.stats.get('cache.overflow', 0)
       pre = (len(c), self.content(), sorted(dict.keys(c)))
       # timestamp 2 stands for "fresh": the current instant under a lag (not yet eligible), and a timestamp
       # AHEAD of the daemon's clock (a sender whose clock runs fast) without one - still to be handed out
@@ -135,6 +140,10 @@ class SeqCache(evx.System):
       got = self.overflow - before
       if got != want:
         return ('refusal', 'store(%s,%s) signalled overflow %d times, reference expects %d' % (m, tsx, got, want))
+      counted = _instr.stats.get('cache.overflow', 0) - counted0
+      if 'c10' in self.oracles and counted != want:
+        return ('overflow-not-counted', 'store(%s,%s): %d refusal(s), but the cache.overflow counter of the wired daemon moved by %d' % (
+          m, tsx, want, counted))
       if got and 'c10' in self.oracles:
         post = (len(c), self.content(), sorted(dict.keys(c)))
         if pre != post:
